@@ -113,7 +113,49 @@ def barrier_probes(sim):
     trips = sum(1 for e in sim.log if e[3] == 'bar.trip')
     if trips:
         probes['barrier_trips'] = trips
+        _barrier_object_probes(sim, probes, windows)
     return probes, windows
+
+
+def _short(role):
+    return 'M' if role == 'server' else role.replace('pt:', 'p').replace('client:', 'c')
+
+
+def _barrier_object_probes(sim, probes, windows):
+    """The same three questions asked of a threading.Barrier rendezvous (the tree after the C09
+    repair, or any tree that uses one):
+
+    rearrival_before_drain  a party arrived for generation g+1 while a party released from
+                            generation g had not run yet (the window in which a flag-based barrier
+                            breaks; the analogue of early_pass)
+    main_trips_barrier      the main thread was the last to arrive (it releases the seats)
+    main_arrives_first      the main thread arrived before every seat thread
+    window orderings        per generation, the arrival order of the five parties"""
+    per = {}         # barrier -> {'arrivals': [...], 'undrained': set(roles)}
+    for dec, now, role, kind, obj, detail in sim.log:
+        if kind == 'bar.wait':
+            st = per.setdefault(obj, {'arrivals': [], 'undrained': set()})
+            if st['undrained'] - {role}:
+                probes['rearrival_before_drain'] = probes.get('rearrival_before_drain', 0) + 1
+            st['arrivals'].append(role)
+        elif kind == 'bar.wake':
+            st = per.get(obj)
+            if st is not None:
+                st['undrained'].discard(role)
+        elif kind == 'bar.trip':
+            st = per.get(obj)
+            if st is None:
+                continue
+            arr = st['arrivals']
+            if arr:
+                windows.add(tuple(_short(r) for r in arr))
+                if arr[-1] == 'server':
+                    probes['main_trips_barrier'] = probes.get('main_trips_barrier', 0) + 1
+                if arr[0] == 'server':
+                    probes['main_arrives_first'] = probes.get('main_arrives_first', 0) + 1
+            # everybody but the last arrival (who never blocks) still has to run to leave
+            st['undrained'] = set(arr[:-1])
+            st['arrivals'] = []
 
 
 def session_probes(run, an):
